@@ -362,6 +362,29 @@ func (k *checker) persist6Map(rep reporter, root, fn *ssa.Function, fi *fnInfo, 
 			}
 		}
 	}
+	if arrayValued && inner != nil {
+		// PERSIST-8 (1): elements of one array field are enumerated in index order and appended at the end
+		c8 := name + "#enumerated-in-index-order"
+		accum := derives(app.Call.Args[0], func(y ssa.Value) bool {
+			ph, isPhi := y.(*ssa.Phi)
+			return isPhi && (ph.Block() == inner.loop.Header || ph.Block() == outer.loop.Header)
+		})
+		if !accum {
+			if ld, isLd := flow.StripAll(app.Call.Args[0]).(*ssa.UnOp); isLd {
+				// accumulated in a variable / field: append(x, e) stored back to x
+				for _, r := range ssau.Refs(app) {
+					if st, isSt := r.(*ssa.Store); isSt && fi.prov(st.Addr) == fi.prov(ld.X) {
+						accum = true
+					}
+				}
+			}
+		}
+		if accum {
+			rep.hold("PERSIST-8", c8, ssau.PosOf(app), "array elements are walked by an ascending loop over the field's slice and appended at the end of the list")
+		} else {
+			rep.violate("PERSIST-8", c8, ssau.PosOf(app), "the entries of an array input are not appended at the end of the accumulated list (prepend / fresh slice): they are not listed in element-index order, and the loader appends in listed order")
+		}
+	}
 	if len(problems) > 0 {
 		rep.violate("PERSIST-6", construct, ssau.PosOf(app), strings.Join(problems, "; "))
 		return
